@@ -4,7 +4,9 @@
 //! macro-generated enum over the row's precisions; `change` realises
 //! `change_precision::<NEW>()` between any two of them.
 
+use constriction::backends::Cursor;
 use constriction::stream::chain::{ChainCoder, DecoderFrontendError, EncoderFrontendError};
+use constriction::{Pos, Seek};
 use constriction::stream::{Decode, Encode};
 use constriction::CoderError;
 use hcommon::{gen_tab, gen_words, hexwords, Tab, TV};
@@ -227,6 +229,81 @@ macro_rules! chain_row {
                         $(C::$V(c) => c.is_whole(),)+
                     }
                 }
+            }
+
+            /// C14 through `Pos` / `Seek`: a chain coder over a seekable compressed backend is jumped back to
+            /// snapshots taken before symbol j; what it decodes from there must be what the straight pass decoded
+            /// at the same positions (symbol i depends on chunk i and model i only, not on the coder's past).
+            /// `script` = (fraction selecting j among the positions reached so far, number of symbols to decode).
+            /// Ok(None) = consistent; Ok(Some(detail)) = violation; Err = decode error of another property.
+            pub fn seek_check(data: Vec<$W>, binary: bool, sel: u8, tabs: &[Tab], script: &[(u16, usize)]) -> Result<Option<String>, String> {
+                let mut k = 0u8;
+                $(
+                    if sel == k {
+                        type SC = ChainCoder<$W, $S, Cursor<$W, Vec<$W>>, Vec<$W>, $P>;
+                        let cur = Cursor::new_at_write_end(data);
+                        let r = if binary { SC::from_binary(cur) } else { SC::from_compressed(cur) };
+                        let mut c = match r {
+                            Ok(c) => c,
+                            Err(_) => return Ok(None),
+                        };
+                        let mut pos = Vec::new();
+                        let mut syms = Vec::new();
+                        let mut out_at = None;
+                        for (i, t) in tabs.iter().enumerate() {
+                            pos.push(c.pos());
+                            match c.decode_symbol(TV::<$Pr, $P>::new(t)) {
+                                Ok(s) => syms.push(s),
+                                Err(CoderError::Frontend(DecoderFrontendError::OutOfCompressedData)) => {
+                                    out_at = Some(i);
+                                    break;
+                                }
+                                Err(e) => return Err(format!("{:?}", e)),
+                            }
+                        }
+                        let mut at = pos.len().saturating_sub(1); // index of the symbol the coder is about to decode (or failed on)
+                        if out_at.is_none() {
+                            at = tabs.len();
+                        }
+                        for &(frac, m) in script {
+                            if pos.is_empty() {
+                                break;
+                            }
+                            // only backward jumps: the remainders live on a Vec, whose seek truncates
+                            let reach = at.min(pos.len() - 1);
+                            let j = (frac as usize * (reach + 1)) >> 16;
+                            if c.seek(pos[j]).is_err() {
+                                return Ok(Some(format!("seek back to the snapshot taken before symbol {} (coder at symbol {}) was refused", j, at)));
+                            }
+                            at = j;
+                            for i in j..(j + m).min(tabs.len()) {
+                                match c.decode_symbol(TV::<$Pr, $P>::new(&tabs[i])) {
+                                    Ok(s) => {
+                                        if i >= syms.len() || syms[i] != s {
+                                            return Ok(Some(format!(
+                                                "after seeking back to symbol {}: symbol {} decodes as {} but the straight pass gave {:?} (out of data at {:?})",
+                                                j, i, s, syms.get(i), out_at
+                                            )));
+                                        }
+                                        at = i + 1;
+                                    }
+                                    Err(CoderError::Frontend(DecoderFrontendError::OutOfCompressedData)) => {
+                                        if out_at != Some(i) {
+                                            return Ok(Some(format!("after seeking back to symbol {}: out of data at symbol {} but the straight pass ran out at {:?}", j, i, out_at)));
+                                        }
+                                        at = i;
+                                        break;
+                                    }
+                                    Err(e) => return Err(format!("{:?}", e)),
+                                }
+                            }
+                        }
+                        return Ok(None);
+                    }
+                    k += 1;
+                )+
+                let _ = k;
+                unreachable!()
             }
 
             enum Step {
@@ -605,6 +682,16 @@ macro_rules! chain_row {
                     }
                 }
                 ctx.label_if(syms3.get(j) != Some(&syms[j]), "bit_flip_changed_symbol_j");
+                // ---- oracle 3: the coder's past does not matter (Pos / Seek) ----------------
+                let k = src.below_usize(5);
+                let script: Vec<(u16, usize)> = (0..k).map(|_| (src.below(65536) as u16, src.below_usize(12))).collect();
+                if !script.is_empty() {
+                    match seek_check(data.clone(), binary, sel, &tabs, &script) {
+                        Ok(None) => ctx.label("seek_script_consistent"),
+                        Ok(Some(detail)) => return Err(vengine::Fail::new("C14/decoding_depends_on_the_coders_past", format!("{} (script {:?})", detail, script))),
+                        Err(_) => ctx.discard("foreign:C13/decode_error"),
+                    }
+                }
                 Ok(())
             }
         }
